@@ -20,6 +20,7 @@ static size_t make(int shape, size_t n, u8* p) {
     case 2: memset(p, 'k', n); for (size_t i = 1023; i < n; i += 1024) p[i] = (u8)(i >> 10); break;
     case 3: fill_text(p, n, 8); for (size_t i = 5000; i + 3000 < n; i += 9000) memcpy(p + i, p + i - 4097, 3000); break;
     case 4: for (size_t i = 0; i < n; i++) p[i] = (u8)((i * 13 + (i >> 7)) & 0x7f); break;
+    case 5: { fill_noise(p, n < 4096 ? n : 4096, 12); for (size_t i = 4096; i < n; i++) p[i] = p[i - 4096]; for (size_t i = 5000; i < n; i += 1371) p[i] = (u8)(i >> 4); break; }   /* one 4 KiB record again and again, a few bytes edited per copy: the long-distance matcher's food */
     default: {   /* ring-resonant records: every 1792-byte stretch (the flushed chunk of api 4) is 28 records of 32 bytes (8-byte token that depends only on the
                   * record's rank + 24 fresh bytes) followed by a copy of those 28 records.  With a flush after every such chunk the streaming ring restarts
                   * less than one block after the window size, so the bytes of an old chunk are overwritten by a chunk with the same tokens at the same
@@ -38,23 +39,25 @@ typedef struct { int shape, size, strat, api; } op_t;     /* api: 0 compress2, 1
 static const size_t SIZES[] = {1024, 20000, 300000};
 static size_t run_op(ZSTD_CCtx* c, const op_t* o, u8* dst, size_t* srcLen) {
     size_t n = make(o->shape, SIZES[o->size], g_src); *srcLen = n;
+    u8* const X = (u8*)malloc(n ? n : 1); memcpy(X, g_src, n);      /* the compressor reads from an allocation of exactly the input size */
+    size_t ret;
     ZSTD_CCtx_reset(c, ZSTD_reset_session_and_parameters);
     ZSTD_CCtx_setParameter(c, ZSTD_c_strategy, o->strat); ZSTD_CCtx_setParameter(c, ZSTD_c_windowLog, 10 + (o->strat % 3) * 3); ZSTD_CCtx_setParameter(c, ZSTD_c_hashLog, 8 + o->strat % 4); ZSTD_CCtx_setParameter(c, ZSTD_c_chainLog, 8 + o->strat % 3);
     ZSTD_CCtx_setParameter(c, ZSTD_c_searchLog, 2); ZSTD_CCtx_setParameter(c, ZSTD_c_minMatch, o->strat >= 6 ? 3 : 4); ZSTD_CCtx_setParameter(c, ZSTD_c_checksumFlag, 1);
     if (o->api == 2) ZSTD_CCtx_refPrefix(c, g_dict, 4096);
-    if (o->api == 3) { ZSTD_CCtx_setParameter(c, ZSTD_c_enableLongDistanceMatching, ZSTD_ps_enable); ZSTD_CCtx_setParameter(c, ZSTD_c_ldmHashLog, 8); ZSTD_CCtx_setParameter(c, ZSTD_c_windowLog, 16); }
-    if (o->api != 1 && o->api != 4) return ZSTD_compress2(c, dst, ZSTD_compressBound(n), g_src, n);
+    if (o->api == 3) { ZSTD_CCtx_setParameter(c, ZSTD_c_enableLongDistanceMatching, ZSTD_ps_enable); ZSTD_CCtx_setParameter(c, ZSTD_c_ldmHashLog, 8); ZSTD_CCtx_setParameter(c, ZSTD_c_ldmHashRateLog, 2); ZSTD_CCtx_setParameter(c, ZSTD_c_windowLog, 16); }
+    if (o->api != 1 && o->api != 4) { ret = ZSTD_compress2(c, dst, ZSTD_compressBound(n), X, n); free(X); return ret; }
     /* api 4: every chunk is flushed, at positions that are not block-aligned: the internal input ring wraps in the middle of blocks */
     ZSTD_outBuffer out = { dst, ZSTD_compressBound(n), 0 }; size_t pos = 0, chunk = o->api == 4 ? 1792 : 7777;
-    for (;;) { size_t end = pos + chunk > n ? n : pos + chunk; ZSTD_inBuffer in = { g_src, end, pos }; ZSTD_EndDirective dir = end == n ? ZSTD_e_end : (o->api == 4 ? ZSTD_e_flush : ZSTD_e_continue); size_t r;
-        do { r = ZSTD_compressStream2(c, &out, &in, dir); if (ZSTD_isError(r)) return r; } while (dir != ZSTD_e_continue && r != 0);
+    for (;;) { size_t end = pos + chunk > n ? n : pos + chunk; ZSTD_inBuffer in = { X, end, pos }; ZSTD_EndDirective dir = end == n ? ZSTD_e_end : (o->api == 4 ? ZSTD_e_flush : ZSTD_e_continue); size_t r;
+        do { r = ZSTD_compressStream2(c, &out, &in, dir); if (ZSTD_isError(r)) { free(X); return r; } } while (dir != ZSTD_e_continue && r != 0);
         pos = in.pos; if (end == n) break; }
-    return out.pos;
+    free(X); return out.pos;
 }
 
 static void body_compress(void) {
     int len = 1 + vx_choose(g_depth); op_t ops[6];
-    for (int i = 0; i < len; i++) { ops[i].shape = vx_choose(6); ops[i].size = vx_deviate(3); if (i < len - 1 && ops[i].size == 0) ops[i].size = 2; ops[i].strat = 1 + vx_choose(9); ops[i].api = vx_deviate(5); }
+    for (int i = 0; i < len; i++) { ops[i].shape = vx_choose(7); ops[i].size = vx_deviate(3); if (i < len - 1 && ops[i].size == 0) ops[i].size = 2; ops[i].strat = 1 + vx_choose(9); ops[i].api = vx_deviate(5); }
     char hs[200] = ""; size_t ho = 0; for (int i = 0; i < len; i++) ho += snprintf(hs + ho, sizeof hs - ho, "(s%d,%zuK,strat%d,api%d) ", ops[i].shape, SIZES[ops[i].size] >> 10, ops[i].strat, ops[i].api);
     vx_label("%s", hs);
     ZSTD_CCtx* c = ZSTD_createCCtx(); long corrections = 0;
@@ -83,7 +86,7 @@ static void body_compress(void) {
 
 static void body_decode(void) {
     /* long streams through a 1 KiB-window streaming decoder with tiny outputs: the output ring restarts many times */
-    int shape = vx_choose(6), strat = 1 + vx_choose(9), ocap = vx_choose(3);
+    int shape = vx_choose(7), strat = 1 + vx_choose(9), ocap = vx_choose(3);
     vx_label("decode shape%d strat%d outcap%d", shape, strat, ocap);
     size_t n = make(shape, 60 * 1024, g_src);
     ZSTD_CCtx* c = ZSTD_createCCtx(); ZSTD_CCtx_setParameter(c, ZSTD_c_strategy, strat); ZSTD_CCtx_setParameter(c, ZSTD_c_windowLog, 10); ZSTD_CCtx_setParameter(c, ZSTD_c_contentSizeFlag, 0);
